@@ -78,6 +78,8 @@ EXC_MAP = {
     "NotImplementedError": "notImplemented",
     # pyoda_time's own exceptions that the model distinguishes (PyExc.skippedTime / ambiguousTime)
     "SkippedTimeError": "skippedTime", "AmbiguousTimeError": "ambiguousTime",
+    # pyoda_time.utility.InvalidPyodaDataError (damaged time-zone data), and the stdlib errors the codec models name
+    "InvalidPyodaDataError": "invalidData", "UnicodeDecodeError": "unicodeError",
 }
 LEAN_KEYWORDS = {
     "at", "end", "from", "do", "then", "else", "if", "let", "fun", "in", "match", "with", "where", "open", "local",
@@ -150,10 +152,15 @@ class Source:
         return m
 
     def find_class(self, rel: str, name: str) -> ast.ClassDef | None:
-        for st in self.module(rel).body:
-            if isinstance(st, ast.ClassDef) and st.name == name:
-                return st
-        return None
+        """a top-level class, or `Outer.Inner.Innermost` for a class nested in class bodies"""
+        body = self.module(rel).body
+        found = None
+        for part in name.split("."):
+            found = next((st for st in body if isinstance(st, ast.ClassDef) and st.name == part), None)
+            if found is None:
+                return None
+            body = found.body
+        return found
 
     def lookup_global(self, rel: str, name: str, extra_imports=None, depth=0):
         """-> ('class', rel, ClassDef) | ('func', rel, FunctionDef) | ('assign', rel, expr) | None"""
@@ -583,6 +590,13 @@ class ConstEval:
             g = self.src.lookup_global(rel, e.id, extra_imports)
             if g and g[0] == "class":
                 return g[1], g[2]
+        if isinstance(e, ast.Attribute):
+            # a class nested in a class: `Outer.Inner`, `self.Inner`
+            owner = self.class_of(e.value, rel, cls, extra_imports)
+            if owner is not None:
+                for st in owner[1].body:
+                    if isinstance(st, ast.ClassDef) and st.name == e.attr:
+                        return owner[0], st
         return None
 
 
@@ -638,6 +652,11 @@ class Target:
         # "param": name of the Lean parameter that carries the dict, "type": its type, "elem": type of its values, "mode"}.
         # A "rw" function returns the pair (result, final dict).
         self.dstate = d.get("state")
+        # the object's mutable attributes as an explicit state: {"param": name of the Lean parameter, "type": a key of "types"
+        # whose "attrs" map the Python attributes to the fields of the state structure, "mode": "rw" (default; the function
+        # returns the pair (result, final state)) | "r" (the state is only read)}.  See the module docstring.
+        self.mstate = d.get("mstate")
+        self.ms_writes: set = set()  # fields of the object state this function (or a callee) may assign; filled by translation
         # filled by translation
         self.node: ast.FunctionDef | None = None
         self.kind = None  # 'method' | 'class' | 'static' | 'property' | 'function'
@@ -648,7 +667,7 @@ class Target:
 
     @property
     def key(self):
-        return (self.cls, self.function)
+        return (self.cls.split(".")[-1] if self.cls else self.cls, self.function)
 
     def lean_params(self):
         return [(n, t) for n, t in self.params if t != "Str"] + list(self.lambda_params)
@@ -697,15 +716,21 @@ class Gen:
             funcs = [st for st in self.src.module(t.file).body if isinstance(st, ast.FunctionDef) and st.name == t.function]
             if not funcs:
                 raise Unsupported(t.file, None, f"function {t.function} not found")
-        # property setters etc.: take the last plain definition
-        node = funcs[-1]
-        decos = [ast.unparse(d) for d in node.decorator_list]
-        if any(d.endswith(".setter") for d in decos):
-            raise Unsupported(t.file, node, "property setter")
+        # a property and its setter share the name: the target says which one it means ("setter": true), default the getter
+        def is_setter(fn):
+            return any(ast.unparse(d).endswith(".setter") for d in fn.decorator_list)
+        want_setter = bool(t.d.get("setter"))
+        chosen = [fn for fn in funcs if is_setter(fn) == want_setter]
+        if not chosen:
+            raise Unsupported(t.file, funcs[-1], "property setter" if not want_setter else f"{t.function} has no setter")
+        node = chosen[-1]
+        decos = [d for d in (ast.unparse(d) for d in node.decorator_list) if not d.endswith(".setter")]
         if "classmethod" in decos:
             kind = "class"
         elif "staticmethod" in decos:
             kind = "static"
+        elif want_setter:
+            kind = "method"   # `obj.name = value` is the call `name.fset(obj, value)`
         elif any(d == "property" or d.endswith("cached_property") for d in decos):
             kind = "property"
         elif t.cls:
@@ -783,6 +808,12 @@ class Ctx:
         self.constructing: dict[str, str] = {}  # python name of object under construction -> struct type
         self.fields: dict[tuple, object] = {}   # (objname, field) -> type, when assigned
         self.defaults: dict[str, object] = {}   # undeclared parameter -> its constant default (until reassigned)
+        # what this path knows about the Option-valued attributes of the state object: attr -> ("none",) | ("some", var, type)
+        self.optknown: dict[str, tuple] = {}
+        # locals bound to a fresh mutable builtin object (bytearray(), {}): they may only be used where no alias can arise
+        self.mutables: set = set()
+        # source text of an Optional-valued expression -> (lean variable, type) known on this path to be its (non-None) value
+        self.known_exprs: dict[str, tuple] = {}
 
     def copy(self):
         c = Ctx()
@@ -790,12 +821,20 @@ class Ctx:
         c.constructing = dict(self.constructing)
         c.fields = dict(self.fields)
         c.defaults = dict(self.defaults)
+        c.optknown = dict(self.optknown)
+        c.mutables = set(self.mutables)
+        c.known_exprs = dict(self.known_exprs)
         return c
 
     def bind(self, name: str, ty) -> None:
         """a (re)binding of a Python local on this path"""
         self.vars[name] = ty
         self.defaults.pop(name, None)
+        self.mutables.discard(name)
+        if self.known_exprs:
+            import re as _re
+            for k_ in [k_ for k_ in self.known_exprs if _re.search(r"(?<![\w.])" + _re.escape(name) + r"(?![\w])", k_)]:
+                del self.known_exprs[k_]
 
 
 def strip_parens(s: str) -> str:
@@ -873,6 +912,117 @@ class FnTranslator:
         self.tmp += 1
         return f"{base}'{self.tmp}"
 
+    # ---- the object's mutable attributes as an explicit state -----------------------------------------------
+    def ms_rw(self) -> bool:
+        return bool(self.t.mstate) and self.t.mstate.get("mode", "rw") == "rw"
+
+    def ms_param(self) -> str:
+        return lname(self.t.mstate["param"])
+
+    def ms_field(self, e, ctx: Ctx):
+        """`self.<attr>` where the target's state type maps <attr> to a field -> (field, type of the field), else None"""
+        m = self.t.mstate
+        if not m or not (isinstance(e, ast.Attribute) and isinstance(e.value, ast.Name) and e.value.id == self.receiver
+                         and ctx.vars.get(e.value.id, "Erased") == "Erased" and e.value.id not in ctx.constructing):
+            return None
+        td = self.g.types[m["type"]]
+        f = td.get("attrs", {}).get(e.attr)
+        if f is None:
+            return None
+        return f, parse_type(td.get("field_types", {}).get(f, "Int"))
+
+    def state_read(self, e, sf, ctx: Ctx, pre: list):
+        """the current value of a state attribute.  It is bound to a fresh name at this point of the evaluation order, so a
+        later state-changing call in the same expression cannot be seen by it."""
+        field, fty = sf
+        k = ctx.optknown.get(e.attr)
+        if k is not None:
+            if k[0] == "none":
+                return "none", "None"
+            return k[1], k[2]
+        if getattr(self, "in_lambda", False):
+            self.bad(e, "state attribute read inside a lambda")
+        tv = self.fresh("s")
+        pre.append(("let", tv, f"{self.ms_param()}.{field}", fty))
+        return tv, fty
+
+    def state_assign(self, node, target, sf, value, ctx: Ctx) -> list:
+        """`self.<attr> = value`: the state with that field replaced.  value: an expression, or an evaluated (text, type)."""
+        field, fty = sf
+        if not self.ms_rw():
+            self.bad(node, "assignment to an attribute of a state the target declares read-only")
+        self.t.ms_writes.add(field)
+        pre = []
+        sp = self.ms_param()
+        opt = isinstance(fty, str) and fty.startswith("?")
+        if isinstance(value, ast.AST) and isinstance(value, ast.Constant) and value.value is None:
+            if not opt:
+                self.bad(node, f"None stored into the non-optional state field {field}")
+            ctx.optknown[target.attr] = ("none",)
+            return [("let", sp, f"{{ {sp} with {field} := none }}", self.t.mstate["type"])]
+        if isinstance(value, ast.AST):
+            kind, txt, ty = self.value_for_bind(value, ctx, pre)
+            if kind == "raising":
+                tv = self.fresh()
+                pre.append(("bind", tv, txt, ty))
+                txt = tv
+        else:
+            txt, ty = value
+        if ty == "Prop" and fty in ("Bool", "?Bool"):
+            txt, ty = f"decide ({strip_parens(txt)})", "Bool"
+        if ty == "None":
+            if not opt:
+                self.bad(node, f"None stored into the non-optional state field {field}")
+            ctx.optknown[target.attr] = ("none",)
+            return pre + [("let", sp, f"{{ {sp} with {field} := none }}", self.t.mstate["type"])]
+        if opt and ty == fty[1:]:
+            tv = self.fresh("v")
+            pre.append(("let", tv, txt, ty))
+            ctx.optknown[target.attr] = ("some", tv, ty)
+            return pre + [("let", sp, f"{{ {sp} with {field} := some {tv} }}", self.t.mstate["type"])]
+        if ty != fty:
+            self.bad(node, f"value of type {ty} stored into the state field {field} of type {fty}")
+        ctx.optknown.pop(target.attr, None)
+        return pre + [("let", sp, f"{{ {sp} with {field} := {self.paren(txt)} }}", self.t.mstate["type"])]
+
+    def deliver_state(self, e, txt, ty, raises, ctx: Ctx, pre: list, cond, writes=None):
+        """a call that returns (result, new state): always bound where it stands in the evaluation order.
+        writes: the fields of the state the callee may assign (None = any); what this path knows about the others stays valid"""
+        if cond:
+            self.bad(e, "state-changing call in a conditionally evaluated position (short-circuit operand / conditional expression)")
+        if getattr(self, "in_lambda", False):
+            self.bad(e, "state-changing call inside a lambda")
+        tv = self.fresh()
+        pre.append(("bind" if raises else "let", f"({tv}, {self.ms_param()})", txt, ty))
+        attrs_ = self.g.types[self.t.mstate["type"]].get("attrs", {})
+        if writes is None:
+            writes = set(attrs_.values())
+        self.t.ms_writes |= set(writes)
+        for a_ in [a_ for a_ in ctx.optknown if attrs_.get(a_) in writes]:
+            del ctx.optknown[a_]
+        self.state_calls.add(id(e))
+        return "pure", tv, ty
+
+    def option_test(self, test, ctx: Ctx):
+        """`X is None` / `X is not None` on a run-time optional (a local of type ?T, or an Option-valued state attribute about
+        which this path knows nothing yet) -> (X, the test is `is None`), else None"""
+        if not (isinstance(test, ast.Compare) and len(test.ops) == 1 and isinstance(test.ops[0], (ast.Is, ast.IsNot))
+                and isinstance(test.comparators[0], ast.Constant) and test.comparators[0].value is None):
+            return None
+        x = test.left
+        if isinstance(x, ast.Name):
+            ty = ctx.vars.get(x.id)
+            if isinstance(ty, str) and ty.startswith("?") and x.id not in ctx.constructing:
+                return x, isinstance(test.ops[0], ast.Is)
+            return None
+        sf = self.ms_field(x, ctx)
+        if sf is not None and isinstance(sf[1], str) and sf[1].startswith("?") and x.attr not in ctx.optknown:
+            return x, isinstance(test.ops[0], ast.Is)
+        return None
+
+    def type_cfg(self, ty):
+        return self.g.types.get(ty) if isinstance(ty, str) else None
+
     # ---- entry -------------------------------------------------------------------------------
     def run(self):
         t, node = self.t, self.node
@@ -897,7 +1047,15 @@ class FnTranslator:
                 self.bad(node, "method without receiver")
             self.receiver = pyparams[0]
         self.absent_params = {}
+        ms_py = (t.mstate or {}).get("py_param")
         for p in pyparams:
+            if ms_py is not None and p == ms_py:
+                # the Python parameter that IS the state object (a stream handed to a classmethod): only its declared state
+                # helpers (`<p>.read(…)`) may mention it
+                if p in declared:
+                    self.bad(node, f"parameter {p} is both the state object and a declared parameter")
+                ctx.vars[p] = "Erased"
+                continue
             if p in declared:
                 if p in t.absent:
                     self.bad(node, f"parameter {p} both declared and absent")
@@ -936,6 +1094,24 @@ class FnTranslator:
                 self.bad(node, "state mode must be r or rw")
             ctx.vars[sp] = parse_type(t.dstate["type"])
             self.local_names.add(sp)
+        self.state_calls = set()
+        if t.mstate:
+            ms = t.mstate
+            sp = ms["param"]
+            if t.dstate:
+                self.bad(node, "a function with both a dict attribute and an object state")
+            if sp in self.local_names or sp in pyparams:
+                self.bad(node, f"state parameter {sp} clashes with a local name")
+            if ms.get("mode", "rw") not in ("r", "rw"):
+                self.bad(node, "mstate mode must be r or rw")
+            if ms["type"] not in self.g.types:
+                self.bad(node, f"mstate type {ms['type']} is not declared")
+            if (self.receiver is None and not ms.get("py_param")) or self.receiver in declared:
+                self.bad(node, "object state needs an erased receiver")
+            if t.lambda_params:
+                self.bad(node, "lambda factory with an object state")
+            ctx.vars[sp] = ms["type"]
+            self.local_names.add(sp)
         if t.function == "__init__":
             # `__init__` initialises the receiver: translated as the construction of the structure
             sty = self.own_struct()
@@ -944,16 +1120,80 @@ class FnTranslator:
             ctx.vars.pop(self.receiver, None)
             ctx.constructing[self.receiver] = sty
             self.init_object = self.receiver
-        body = self.block(list(node.body), ctx)
+        body_stmts = list(node.body)
+        if t.d.get("slice"):
+            body_stmts = self.slice_body(body_stmts, t.d["slice"])
+            self.scope = ast.Module(body=body_stmts, type_ignores=[])   # "after the loop" means: later in the slice
+        if t.d.get("generator_step"):
+            body_stmts = self.generator_step_body(body_stmts)
+        body = self.block(body_stmts, ctx)
         t.body_ir = body
         t.raises = self.ir_raises(body)
+
+    def slice_body(self, stmts: list, sl: dict) -> list:
+        """A run of consecutive top-level statements of a procedure (a function that returns None and whose statements are
+        independent checks): from the first statement whose source text starts with sl["from_text"] up to (not including)
+        the first later one starting with sl["until_text"] (to the end when absent).  The slice is translated as a function
+        of its own that returns None where it ends; the target declares "ret": "Unit".  A name the slice reads must be bound
+        inside it (a read of a local bound before the slice is a read before assignment and is refused)."""
+        if self.t.ret != "Unit":
+            self.bad(self.node, "slice of a function whose declared result is not Unit")
+        texts = [ast.unparse(st) for st in stmts]
+        a = next((k for k, tx in enumerate(texts) if tx.startswith(sl["from_text"])), None) if sl.get("from_text") else 0
+        if a is None:
+            self.bad(self.node, f"slice: no top-level statement starts with {sl['from_text']!r}")
+        b = len(stmts)
+        if sl.get("until_text"):
+            b = next((k for k in range(a + 1, len(stmts)) if texts[k].startswith(sl["until_text"])), None)
+            if b is None:
+                self.bad(self.node, f"slice: no later top-level statement starts with {sl['until_text']!r}")
+        part = stmts[a:b]
+        for st in part:
+            for n in ast.walk(st):
+                if isinstance(n, ast.Return) and n.value is not None:
+                    self.bad(n, "slice containing a return with a value")
+        # names bound before the slice are unbound inside it
+        self.assigned_names |= {n.id for st in stmts[:a] for n in ast.walk(st) if isinstance(n, ast.Name) and isinstance(n.ctx, ast.Store)}
+        return part
+
+    def generator_step_body(self, stmts: list) -> list:
+        """A generator of the shape `<docstring>? while True: BODY` where BODY ends with its only `yield v` and leaves the loop
+        by `break`: ONE `next()` of it is BODY with `break` -> `return None` (StopIteration) and `yield v` -> `return v`.
+        (Every later `next()` resumes at the loop head; a local that a later round reads before assigning it would carry a
+        value over from the round before — in the step function such a read is a read before assignment and is refused.)
+        The target's result type is `?T`."""
+        core = [st for st in stmts if not (isinstance(st, ast.Expr) and isinstance(st.value, ast.Constant))]
+        if len(core) != 1 or not isinstance(core[0], ast.While) or not (isinstance(core[0].test, ast.Constant) and core[0].test.value is True) or core[0].orelse:
+            self.bad(self.node, "generator_step: the function body is not a single `while True:` loop")
+        loop = core[0]
+        ys = [n for n in ast.walk(loop) if isinstance(n, (ast.Yield, ast.YieldFrom))]
+        last = loop.body[-1] if loop.body else None
+        if len(ys) != 1 or not (isinstance(last, ast.Expr) and last.value is ys[0] and isinstance(ys[0], ast.Yield) and ys[0].value is not None):
+            self.bad(loop, "generator_step: the loop body does not end with its only `yield <value>`")
+        if not (isinstance(self.t.ret, str) and self.t.ret.startswith("?")):
+            self.bad(loop, "generator_step: the declared result type is not optional")
+
+        class Tr(ast.NodeTransformer):
+            def visit_Break(tr, n):  # noqa: N805
+                return ast.copy_location(ast.Return(value=None), n)
+
+            def visit_While(tr, n):  # noqa: N805
+                return n  # a `break` of an inner loop belongs to that loop
+
+            def visit_For(tr, n):  # noqa: N805
+                return n
+        body = [Tr().visit(st) for st in loop.body[:-1]]
+        body.append(ast.copy_location(ast.Return(value=ys[0].value), last))
+        for st in body:
+            ast.fix_missing_locations(st)
+        return body
 
     def ir_raises(self, ir) -> bool:
         for n in ir:
             k = n[0]
             if k == "optmatch" and (self.ir_raises(n[3]) or self.ir_raises(n[4])):
                 return True
-            if k in ("raise", "bind", "tail", "optret"):
+            if k in ("raise", "bind", "tail", "optret", "try"):
                 return True  # (a loop call is a "bind": running out of fuel is an error value)
             if k == "if" and (self.ir_raises(n[2]) or self.ir_raises(n[3])):
                 return True
@@ -1097,6 +1337,32 @@ class FnTranslator:
                     self.bad(st, f"noreturn helper with unknown exception {nr}")
                 out.append(("raise", nr))
                 return out
+            if isinstance(st, ast.If) and isinstance(st.test, ast.Compare) and len(st.test.ops) == 1 and isinstance(st.test.ops[0], (ast.Is, ast.IsNot)) \
+                    and isinstance(st.test.left, ast.NamedExpr) and isinstance(st.test.comparators[0], ast.Constant) and st.test.comparators[0].value is None:
+                # `if (x := f(…)) is None: A else: B` where f returns `T | None`: x is None in A and a T in B (and afterwards, per path)
+                ne_ = st.test.left
+                pre_ = []
+                if isinstance(ne_.value, ast.Call):
+                    kind_, txt_, ty_ = self.call(ne_.value, ctx, pre_, want_raw=True)
+                else:
+                    txt_, ty_ = self.expr(ne_.value, ctx, pre_)
+                    kind_ = "pure"
+                if not (isinstance(ty_, str) and ty_.startswith("?")):
+                    self.bad(st, f"`(x := …) is None` on a value of type {ty_}")
+                inner = ty_[1:]
+                nm = ne_.target.id
+                tv = self.fresh("o")
+                out.extend(pre_)
+                out.append(("bind" if kind_ == "raising" else "let", tv, txt_, ty_))
+                c1, c2 = ctx.copy(), ctx.copy()
+                c1.bind(nm, inner)
+                c2.vars[nm] = "None"
+                none_test = isinstance(st.test.ops[0], ast.Is)
+                body_some, body_none = (st.orelse, st.body) if none_test else (st.body, st.orelse)
+                b1 = self.block(list(body_some) + rest, c1)
+                b2 = self.block(list(body_none) + rest, c2)
+                out.append(("optmatch", tv, lname(nm), b1, b2))
+                return out
             if isinstance(st, ast.If) and isinstance(st.test, ast.NamedExpr) and isinstance(st.test.value, ast.Call):
                 # `if (x := f(...)):` where f returns `T | None` and T defines neither __bool__ nor __len__: the test is
                 # `x is not None`; x is a T in the body and None afterwards on the other path
@@ -1142,6 +1408,55 @@ class FnTranslator:
                 stmts = [ast.copy_location(new, st)] + rest
                 i = 0
                 continue
+            if isinstance(st, ast.If) and isinstance(st.test, ast.Call) and isinstance(st.test.func, ast.Name) and st.test.func.id == "isinstance" \
+                    and len(st.test.args) == 2 and isinstance(st.test.args[0], ast.NamedExpr):
+                # `if isinstance((a := b), T): …`  ==  `a = b` followed by `if isinstance(a, T): …` (the walrus is evaluated first)
+                ne_ = st.test.args[0]
+                asg_ = ast.copy_location(ast.Assign(targets=[ast.copy_location(ast.Name(id=ne_.target.id, ctx=ast.Store()), ne_)], value=ne_.value), st)
+                test_ = ast.copy_location(ast.Call(func=st.test.func, args=[ast.copy_location(ast.Name(id=ne_.target.id, ctx=ast.Load()), ne_), st.test.args[1]], keywords=[]), st.test)
+                new_ = ast.copy_location(ast.If(test=test_, body=st.body, orelse=st.orelse), st)
+                for n_ in (asg_, new_):
+                    ast.fix_missing_locations(n_)
+                stmts = [asg_, new_] + rest
+                i = 0
+                continue
+            if isinstance(st, ast.If) and isinstance(st.test, ast.BoolOp) and len(st.test.values) >= 2 and self.option_test(st.test.values[0], ctx) is not None \
+                    and isinstance(st.test.values[0].left, ast.Name) \
+                    and self.option_test(st.test.values[0], ctx)[1] == isinstance(st.test.op, ast.Or):
+                # `if x is None or B: X else: Y`      ==  `if x is None: X else: (if B: X else: Y)`   (B sees x as a T)
+                # `if x is not None and B: X else: Y`  ==  `if x is not None: (if B: X else: Y) else: Y`
+                v = st.test
+                others = v.values[1:]
+                tail = others[0] if len(others) == 1 else ast.copy_location(ast.BoolOp(op=v.op, values=others), v)
+                inner = ast.copy_location(ast.If(test=tail, body=st.body, orelse=st.orelse), st)
+                if isinstance(v.op, ast.Or):
+                    new = ast.If(test=v.values[0], body=st.body, orelse=[inner])
+                else:
+                    new = ast.If(test=v.values[0], body=[inner], orelse=st.orelse)
+                stmts = [ast.copy_location(new, st)] + rest
+                i = 0
+                continue
+            if isinstance(st, ast.If) and self.option_test(st.test, ctx) is not None:
+                # a run-time optional: `match x with | some v => … | none => …`; on the `some` path x IS v, on the other None
+                subj, none_test = self.option_test(st.test, ctx)
+                pre_ = []
+                txt_, ty_ = self.expr(subj, ctx, pre_)
+                inner_ = ty_[1:]
+                out.extend(pre_)
+                c_some, c_none = ctx.copy(), ctx.copy()
+                if isinstance(subj, ast.Name):
+                    pv = lname(subj.id)
+                    c_some.bind(subj.id, inner_)
+                    c_none.vars[subj.id] = "None"
+                else:
+                    pv = self.fresh("v")
+                    c_some.optknown[subj.attr] = ("some", pv, inner_)
+                    c_none.optknown[subj.attr] = ("none",)
+                body_some, body_none = (st.orelse, st.body) if none_test else (st.body, st.orelse)
+                b1 = self.block(list(body_some) + rest, c_some)
+                b2 = self.block(list(body_none) + rest, c_none)
+                out.append(("optmatch", txt_, pv, b1, b2))
+                return out
             if isinstance(st, ast.If):
                 sv = self.static(st.test, ctx)
                 if sv is True:
@@ -1160,6 +1475,66 @@ class FnTranslator:
                 b2 = self.block(list(st.orelse) + rest, c2)
                 out.append(("if", cond, b1, b2))
                 return out
+            if isinstance(st, (ast.Assign, ast.AnnAssign)) and self.collected_generator(st) is not None:
+                # `x = tuple(f(…) for _ in range(n))` (also list(…) / a list comprehension): the elements are produced in order, one
+                # per round:  `x = []` ; `for _ in range(n): x.append(f(…))`  (a tuple and a list are the same value here).
+                # The list type is the declared one whose elements have the type of f(…) (found by a trial translation).
+                init_, loop_ = self.collected_generator(st)
+                nm_ = init_.targets[0].id
+                saved_ = (self.tmp, set(self.state_calls), set(self.t.ms_writes))
+                try:
+                    ety_ = self.expr(loop_.body[0].value.args[0], ctx.copy(), [])[1]
+                finally:
+                    self.tmp, self.state_calls = saved_[0], saved_[1]
+                    self.t.ms_writes.clear(); self.t.ms_writes.update(saved_[2])
+                cands_ = [ty for ty, cfg in self.g.types.items() if "[]" in cfg.get("fresh", {}) and parse_type(cfg.get("elem", "")) == ety_ and "append" in cfg.get("mutators", {})]
+                if len(cands_) != 1:
+                    self.bad(st, f"collected generator: {len(cands_)} declared list types hold elements of type {ety_}")
+                if nm_ in ctx.constructing:
+                    self.bad(st, "rebinding the object under construction")
+                ctx.bind(nm_, cands_[0])
+                ctx.mutables.add(nm_)
+                out.append(("let", lname(nm_), self.g.types[cands_[0]]["fresh"]["[]"], cands_[0]))
+                stmts = [loop_] + rest
+                i = 0
+                continue
+            if isinstance(st, ast.Try):
+                out.extend(self.do_try(st, rest, ctx))
+                return out
+            if isinstance(st, ast.Delete) and len(st.targets) == 1 and isinstance(st.targets[0], ast.Subscript) \
+                    and self.ms_field(st.targets[0].value, ctx) is not None:
+                # `del self.<attr>[k]` on a state attribute whose type declares "delitem" {"lean", "key", "raises"?}
+                tg_ = st.targets[0]
+                sf = self.ms_field(tg_.value, ctx)
+                pre_ = []
+                cur, cty = self.state_read(tg_.value, sf, ctx, pre_)
+                di = (self.type_cfg(cty) or {}).get("delitem")
+                if di is None:
+                    self.bad(st, f"`del` of an item of the state attribute {tg_.value.attr} of type {cty}")
+                k, kty = self.expr(tg_.slice, ctx, pre_)
+                if kty != parse_type(di["key"]):
+                    self.bad(st, f"`del` with a key of type {kty}")
+                tv = self.fresh("m")
+                pre_.append(("bind" if di.get("raises") else "let", tv, f"{di['lean']} {cur} {self.paren(k)}", cty))
+                out.extend(pre_)
+                out.extend(self.state_assign(st, tg_.value, sf, (tv, cty), ctx))
+                i += 1
+                continue
+            if isinstance(st, ast.With):
+                # `with self.__lock:` for a lock the group declares ("locks"): the body, under the stated assumption that the
+                # object is used by one thread at a time (acquiring a free lock and releasing it have no other effect; the
+                # interleavings of several threads are the subject of the property's own model, not of the translation)
+                locks = self.g.cfg.get("locks", [])
+                if len(st.items) != 1 or st.items[0].optional_vars is not None or ast.unparse(st.items[0].context_expr) not in locks:
+                    self.bad(st, "statement With (only `with <declared lock>:`)")
+                stmts = list(st.body) + rest
+                i = 0
+                continue
+            if isinstance(st, (ast.Assign, ast.AnnAssign)) and self.g.cfg.get("locks") \
+                    and ast.unparse(st.targets[0] if isinstance(st, ast.Assign) else st.target) in self.g.cfg["locks"] \
+                    and isinstance(st.value, ast.Call) and ast.unparse(st.value.func) in ("threading.Lock", "threading.RLock", "Lock", "RLock"):
+                i += 1   # the creation of a declared lock: not part of the translated state
+                continue
             if isinstance(st, ast.Match):
                 stmts = [self.match_as_if(st, ctx)] + rest
                 i = 0
@@ -1167,6 +1542,10 @@ class FnTranslator:
             if isinstance(st, _LoopContinue):
                 out.extend(self.loop_continue(st, ctx))
                 return out
+            if isinstance(st, ast.For) and not self.is_range_for(st):
+                out.extend(self.for_over_list(st, ctx))
+                i += 1
+                continue
             if isinstance(st, ast.For):
                 stmts = self.for_as_while(st, ctx) + rest
                 i = 0
@@ -1177,7 +1556,10 @@ class FnTranslator:
                     # the loop body can return: `match early with | some v => return v | none => <the rest>`
                     ev = wir[-1][1]
                     out.extend(wir[:-1])
-                    out.append(("optret", ev, self.block(rest, ctx)))
+                    # (`while True:` ends only by a return: the loop function never reports "no early return", and the code
+                    #  after the loop is dead — that arm is the out-of-domain error)
+                    after_ = [("raise", "decimalDomain")] if len(wir[-1]) > 2 and wir[-1][2] else self.block(rest, ctx)
+                    out.append(("optret", ev, after_, f"(v', {self.ms_param()})" if self.ms_rw() else "v'"))
                     return out
                 out.extend(wir)
                 i += 1
@@ -1195,15 +1577,15 @@ class FnTranslator:
         if getattr(self, "init_object", None) is not None:
             return out + self.do_return(ast.copy_location(ast.Return(value=ast.Name(id=self.init_object, ctx=ast.Load())), self.node), ctx)
         if self.t.ret == "Unit":
-            out.append(("ret", "()", "Unit"))
-            return out
+            if getattr(self, "in_loop", False):
+                self.bad(self.node, "control reaches the end of the function inside a loop body")
+            return out + self.do_return(ast.copy_location(ast.Return(value=None), self.node), ctx)
         self.bad(self.node, "control reaches the end of the function (returns None)")
 
     # ---- while loops -> fuel-recursive auxiliary functions -------------------------------------------------
     def do_while(self, st: ast.While, ctx: Ctx) -> list:
         t = self.t
-        if t.loop_fuel is None or not isinstance(t.loop_fuel, int) or t.loop_fuel <= 0:
-            self.bad(st, "statement While (the target declares no loop_fuel)")
+        fuel_ = self.fuel_of(st)
         if st.orelse:
             self.bad(st, "while/else")
         if t.dstate:
@@ -1222,13 +1604,17 @@ class FnTranslator:
         if early and (t.lambda_params or t.dstate):
             self.bad(st, "return inside a loop of a lambda factory / dict-carrying function")
         carried = []
+        order = {}
         for n in ast.walk(ast.Module(body=st.body, type_ignores=[])):
             if isinstance(n, ast.Name) and isinstance(n.ctx, ast.Store) and n.id not in carried:
                 carried.append(n.id)
-            if isinstance(n, ast.Attribute) and isinstance(n.ctx, ast.Store):
+            if isinstance(n, ast.Attribute) and isinstance(n.ctx, ast.Store) and self.ms_field(n, ctx) is None:
                 self.bad(n, "attribute assignment inside a while loop")
+            mut_ = self.mutated_name(n, ctx)
+            if mut_ is not None and mut_ not in carried:
+                carried.append(mut_)          # `x.extend(…)` / `x[k] = v` on a mutable local: a rebinding of x
+                order.setdefault(mut_, (n.lineno, n.col_offset))
         # order of first assignment in the source
-        order = {}
         for n in ast.walk(ast.Module(body=st.body, type_ignores=[])):
             if isinstance(n, ast.Name) and isinstance(n.ctx, ast.Store):
                 order.setdefault(n.id, (n.lineno, n.col_offset))
@@ -1238,8 +1624,10 @@ class FnTranslator:
         body_ids = set(id(n) for n in ast.walk(st))
         def used_after(v):
             return any(isinstance(n, ast.Name) and n.id == v and id(n) not in body_ids
-                       and (n.lineno, n.col_offset) > (st.end_lineno, st.end_col_offset) for n in ast.walk(self.node))
+                       and (n.lineno, n.col_offset) > (st.end_lineno, st.end_col_offset) for n in ast.walk(getattr(self, 'scope', self.node)))
         carried = [v for v in carried if v in ctx.vars or v in ctx.constructing or used_after(v)]
+        if self.ms_rw():
+            carried.append(t.mstate["param"])   # the object's state is threaded through the iterations
         if not carried:
             self.bad(st, "while loop that assigns nothing")
         for v in carried:
@@ -1252,32 +1640,312 @@ class FnTranslator:
             if isinstance(n, ast.Name) and isinstance(n.ctx, ast.Load) and n.id in ctx.vars and n.id not in carried and n.id not in read \
                     and ctx.vars[n.id] not in ("None", "Erased", "Str") and n.id not in ctx.defaults:
                 read.append(n.id)
+        if t.mstate and not self.ms_rw():
+            read.append(t.mstate["param"])
+        ctx.optknown.clear()  # what is known about the state before the loop need not hold at the head of a later iteration
         self.loop_count = getattr(self, "loop_count", 0) + 1
         lp = {"index": self.loop_count, "name": f"{t.lean_name}.loop{self.loop_count}", "line": st.lineno, "early": early,
               "free": [(v, ctx.vars[v]) for v in read], "carried": [(v, ctx.vars[v]) for v in carried]}
         lp["type"] = lp["carried"][0][1] if len(carried) == 1 else tuple(ty for _, ty in lp["carried"])
         # the loop function: if cond then body; recurse else return the carried variables
         lctx = ctx.copy()
+        tup = lname(carried[0]) if len(carried) == 1 else "(" + ", ".join(lname(v) for v in carried) + ")"
+        cty = lp["carried"][0][1] if len(carried) == 1 else tuple(ty for _, ty in lp["carried"])
+        exit_ir = [("ret", f"(none, {tup})" if early else tup, cty)]
+        always = isinstance(st.test, ast.Constant) and st.test.value is True
+        opt_first = None
+        tst = st.test
+        if isinstance(tst, ast.BoolOp) and isinstance(tst.op, ast.And) and len(tst.values) >= 2:
+            f0 = tst.values[0]
+            if isinstance(f0, ast.Compare) and len(f0.ops) == 1 and isinstance(f0.ops[0], ast.IsNot) and isinstance(f0.comparators[0], ast.Constant) \
+                    and f0.comparators[0].value is None and isinstance(f0.left, (ast.Attribute, ast.Call)):
+                try:
+                    saved_ = self.tmp
+                    ty0 = self.expr(f0.left, lctx.copy(), [])[1]
+                    self.tmp = saved_
+                except Unsupported:
+                    ty0 = None
+                if isinstance(ty0, str) and ty0.startswith("?"):
+                    opt_first = f0.left
         self.in_loop, self.cur_loop = True, lp
         try:
             pre = []
-            cond = self.prop(st.test, lctx, pre)
-            body = self.block(list(st.body) + [_LoopContinue()], lctx.copy())
+            if opt_first is not None:
+                # `while A is not None and C: BODY` with A an Optional-valued expression:
+                #   match A with | some a => (if C then BODY; again else stop) | none => stop      — C and BODY read A as a
+                atxt, aty = self.expr(opt_first, lctx, pre)
+                pv = self.fresh("v")
+                cs = lctx.copy()
+                cs.known_exprs[ast.unparse(opt_first)] = (pv, aty[1:])
+                others = tst.values[1:]
+                ctest = others[0] if len(others) == 1 else ast.copy_location(ast.BoolOp(op=tst.op, values=others), tst)
+                pre2 = []
+                cond = self.prop(ctest, cs, pre2)
+                body = self.block(list(st.body) + [_LoopContinue()], cs.copy())
+                lp["ir"] = pre + [("optmatch", atxt, pv, pre2 + [("if", cond, body, exit_ir)], exit_ir)]
+            else:
+                cond = self.prop(st.test, lctx, pre)
+                body = self.block(list(st.body) + [_LoopContinue()], lctx.copy())
         finally:
             self.in_loop = False
-        tup = lname(carried[0]) if len(carried) == 1 else "(" + ", ".join(lname(v) for v in carried) + ")"
-        cty = lp["carried"][0][1] if len(carried) == 1 else tuple(ty for _, ty in lp["carried"])
-        lp["ir"] = pre + [("if", cond, body, [("ret", f"(none, {tup})" if early else tup, cty)])]
+        if always and not early:
+            self.bad(st, "`while True` without a return in its body")
+        if opt_first is None:
+            lp["ir"] = body if always else pre + [("if", cond, body, exit_ir)]
         lp["type"] = cty
         t.loops.append(lp)
         call = " ".join([self.ref(lp["name"])] + [n for n, _, _, _ in t.fun_params] + [lname(n) for n, _ in t.extra_params]
-                        + [lname(v) for v in read] + [str(t.loop_fuel)] + [lname(v) for v in carried])
+                        + [lname(v) for v in read] + [fuel_] + [lname(v) for v in carried])
+        muts_ = set(ctx.mutables)
         for v, ty in lp["carried"]:
             ctx.bind(v, ty)
+        ctx.mutables |= muts_ & set(carried)
+        ctx.optknown.clear()
         if early:
             ev = f"early'{lp['index']}"
-            return [("bind", f"({ev}, {tup})", call, cty), ("early", ev)]
+            return [("bind", f"({ev}, {tup})", call, cty), ("early", ev, always)]
         return [("bind", tup, call, cty)]
+
+    def fuel_of(self, st) -> str:
+        """the fuel of the loop function a `while` becomes: the target's "loop_fuel" — a positive integer, or a Lean term of
+        type Nat over the variables in scope where the loop starts (e.g. "(n.toNat + 1)"), or a list with one entry per loop
+        in source order.  Out of fuel is the error `decimalDomain`, which the agreement theorem has to account for, so a
+        wrong term cannot make a false theorem provable."""
+        f = self.t.loop_fuel
+        if isinstance(f, list):
+            k = getattr(self, "loop_count", 0)
+            f = f[k] if k < len(f) else None
+        if isinstance(f, bool) or f is None or (isinstance(f, int) and f <= 0) or not isinstance(f, (int, str)):
+            self.bad(st, "statement While (the target declares no loop_fuel)")
+        return str(f) if isinstance(f, int) else f"({f})"
+
+    def mutated_name(self, n, ctx: Ctx):
+        """the local a statement-level node mutates in place (`x.extend(a)` with a declared mutator, `x[k] = v`), else None"""
+        if isinstance(n, ast.Expr) and isinstance(n.value, ast.Call) and isinstance(n.value.func, ast.Attribute) \
+                and isinstance(n.value.func.value, ast.Name):
+            nm = n.value.func.value.id
+            cfg = self.type_cfg(ctx.vars.get(nm))
+            if cfg and n.value.func.attr in cfg.get("mutators", {}):
+                return nm
+        if isinstance(n, ast.Assign) and len(n.targets) == 1 and isinstance(n.targets[0], ast.Subscript) and isinstance(n.targets[0].value, ast.Name):
+            nm = n.targets[0].value.id
+            cfg = self.type_cfg(ctx.vars.get(nm))
+            if cfg and cfg.get("setitem"):
+                return nm
+        return None
+
+    @staticmethod
+    def is_range_for(st: ast.For) -> bool:
+        it = st.iter
+        return isinstance(it, ast.Call) and isinstance(it.func, ast.Name) and it.func.id == "range"
+
+    def for_over_list(self, st: ast.For, ctx: Ctx) -> list:
+        """`for x in <list value>: body` (also `for a, b in …` over a list of pairs) -> a function recursive on the list,
+        `loop [] c = c`, `loop (x :: rest) c = body; loop rest c'` (no fuel).  The iterated value is evaluated once and is an
+        immutable Lean list, so the body must not mutate what the iterable expression names; x must not be used after the
+        loop; no break/continue/return/else; the object's state and every local the body rebinds are carried."""
+        t = self.t
+        if st.orelse:
+            self.bad(st, "for/else")
+        if t.dstate or t.lambda_params:
+            self.bad(st, "for loop in a lambda factory / dict-carrying function")
+        outer_loop = (getattr(self, "in_loop", False), getattr(self, "cur_loop", None))
+        for n in ast.walk(st):
+            if isinstance(n, ast.For) and n is not st and self.is_range_for(n):
+                self.bad(n, "for … in range(…) inside a for loop over a list")
+            if isinstance(n, (ast.Break, ast.Continue, ast.While, ast.Return, ast.Lambda)) and n is not st:
+                self.bad(n, f"{type(n).__name__} inside a for loop over a list")
+        if isinstance(st.target, ast.Name):
+            tnames = [st.target.id]
+        elif isinstance(st.target, ast.Tuple) and all(isinstance(x, ast.Name) for x in st.target.elts):
+            tnames = [x.id for x in st.target.elts]
+        else:
+            self.bad(st, "for target that is not a name or a tuple of names")
+        pre = []
+        try:
+            itxt, ity = self.expr(st.iter, ctx, pre)
+        except Unsupported as u:
+            self.bad(st, f"statement For over something other than range(…) or a value of a list type ({u.what})")
+        cfg = self.type_cfg(ity)
+        if not cfg or "elem" not in cfg:
+            self.bad(st, f"statement For over something other than range(…) or a value of a list type (type {ity})")
+        ety = parse_type(cfg["elem"])
+        if len(tnames) > 1 and not (is_tuple(ety) and len(ety) == len(tnames)):
+            self.bad(st, "for target tuple does not fit the element type")
+        iter_names = {n.id for n in ast.walk(st.iter) if isinstance(n, ast.Name)}
+        body_nodes = set(id(n) for n in ast.walk(st))
+        for v in tnames:
+            for n in ast.walk(ast.Module(body=st.body, type_ignores=[])):
+                if isinstance(n, ast.Name) and n.id == v and isinstance(n.ctx, ast.Store):
+                    self.bad(n, "assignment to the loop variable of a for loop")
+            for n in self.loads_after(v, st, body_nodes):
+                self.bad(n, "use of a for-loop variable after its loop")
+            if v in ctx.vars or v in ctx.constructing:
+                self.bad(st, f"for-loop variable {v} shadows an existing local")
+        carried, order = [], {}
+        for n in ast.walk(ast.Module(body=st.body, type_ignores=[])):
+            if isinstance(n, ast.Name) and isinstance(n.ctx, ast.Store) and n.id not in carried:
+                carried.append(n.id)
+                order.setdefault(n.id, (n.lineno, n.col_offset))
+            if isinstance(n, ast.Attribute) and isinstance(n.ctx, ast.Store) and self.ms_field(n, ctx) is None:
+                self.bad(n, "attribute assignment inside a for loop")
+            mut_ = self.mutated_name(n, ctx)
+            if mut_ is not None:
+                if mut_ in iter_names:
+                    self.bad(n, "the loop body mutates the value it iterates over")
+                if mut_ not in carried:
+                    carried.append(mut_)
+                    order.setdefault(mut_, (n.lineno, n.col_offset))
+        carried.sort(key=lambda x: order[x])
+
+        def used_after(v):
+            return any(isinstance(n, ast.Name) and n.id == v and id(n) not in body_nodes
+                       and (n.lineno, n.col_offset) > (st.end_lineno, st.end_col_offset) for n in ast.walk(getattr(self, 'scope', self.node)))
+        carried = [v for v in carried if v in ctx.vars or used_after(v)]
+        if self.ms_rw():
+            carried.append(t.mstate["param"])
+        unit_pre = []
+        if not carried:
+            # a loop of checks (its body only raises or passes): it carries a unit value
+            carried = ["unit'"]
+            ctx.vars["unit'"] = "Unit"
+            unit_pre = [("let", "unit'", "()", "Unit")]
+        for v in carried:
+            if v not in ctx.vars or ctx.vars[v] in ("None", "Erased", "Str") or v in ctx.constructing:
+                self.bad(st, f"loop variable {v} is not defined (with a value type) before the loop")
+            if v in ctx.defaults:
+                ctx.bind(v, ctx.vars[v])
+        read = []
+        for n in ast.walk(ast.Module(body=st.body, type_ignores=[])):
+            if isinstance(n, ast.Name) and isinstance(n.ctx, ast.Load) and n.id in ctx.vars and n.id not in carried and n.id not in read \
+                    and ctx.vars[n.id] not in ("None", "Erased", "Str") and n.id not in ctx.defaults and n.id not in tnames:
+                read.append(n.id)
+        if t.mstate and not self.ms_rw():
+            read.append(t.mstate["param"])
+        ctx.optknown.clear()
+        self.loop_count = getattr(self, "loop_count", 0) + 1
+        lp = {"index": self.loop_count, "name": f"{t.lean_name}.loop{self.loop_count}", "line": st.lineno, "early": False, "kind": "forlist",
+              "free": [(v, ctx.vars[v]) for v in read], "carried": [(v, ctx.vars[v]) for v in carried], "elem": ety,
+              "pattern": lname(tnames[0]) if len(tnames) == 1 else "(" + ", ".join(lname(v) for v in tnames) + ")"}
+        cty = lp["carried"][0][1] if len(carried) == 1 else tuple(ty for _, ty in lp["carried"])
+        lp["type"] = cty
+        lctx = ctx.copy()
+        if len(tnames) == 1:
+            lctx.vars[tnames[0]] = ety
+        else:
+            for v, ty in zip(tnames, ety):
+                lctx.vars[v] = ty
+        self.in_loop, self.cur_loop = True, lp
+        try:
+            body = self.block(list(st.body) + [_LoopContinue()], lctx)
+        finally:
+            self.in_loop, self.cur_loop = outer_loop   # (a list loop may stand inside the body of another list loop)
+        lp["ir"] = body
+        t.loops.append(lp)
+        tup = lname(carried[0]) if len(carried) == 1 else "(" + ", ".join(lname(v) for v in carried) + ")"
+        call = " ".join([self.ref(lp["name"])] + [n for n, _, _, _ in t.fun_params] + [lname(n) for n, _ in t.extra_params]
+                        + [lname(v) for v in read] + [self.paren(itxt)] + [lname(v) for v in carried])
+        muts_ = set(ctx.mutables)
+        for v, ty in lp["carried"]:
+            ctx.bind(v, ty)
+        ctx.mutables |= muts_ & set(carried)
+        ctx.optknown.clear()
+        return pre + unit_pre + [("bind", tup, call, cty)]
+
+    def collected_generator(self, st):
+        tgt = st.targets[0] if isinstance(st, ast.Assign) and len(st.targets) == 1 else getattr(st, "target", None)
+        v = getattr(st, "value", None)
+        gen = None
+        if isinstance(v, ast.Call) and isinstance(v.func, ast.Name) and v.func.id in ("tuple", "list") and len(v.args) == 1 and not v.keywords \
+                and isinstance(v.args[0], ast.GeneratorExp) and v.func.id not in self.local_names:
+            gen = v.args[0]
+        elif isinstance(v, ast.ListComp):
+            gen = v
+        if gen is None or not isinstance(tgt, ast.Name) or len(gen.generators) != 1:
+            return None
+        c = gen.generators[0]
+        if c.ifs or c.is_async or not isinstance(c.target, ast.Name) or not (isinstance(c.iter, ast.Call) and isinstance(c.iter.func, ast.Name) and c.iter.func.id == "range"):
+            return None
+        if any(isinstance(n, ast.Name) and n.id == tgt.id for n in ast.walk(gen)):
+            return None
+        mk = lambda n: ast.copy_location(n, st)  # noqa: E731
+        init = mk(ast.Assign(targets=[mk(ast.Name(id=tgt.id, ctx=ast.Store()))], value=mk(ast.List(elts=[], ctx=ast.Load()))))
+        app = mk(ast.Expr(value=mk(ast.Call(func=mk(ast.Attribute(value=mk(ast.Name(id=tgt.id, ctx=ast.Load())), attr="append", ctx=ast.Load())), args=[gen.elt], keywords=[]))))
+        loop = mk(ast.For(target=mk(ast.Name(id=c.target.id, ctx=ast.Store())), iter=c.iter, body=[app], orelse=[]))
+        for n in (init, loop):
+            ast.fix_missing_locations(n)
+        if hasattr(self, "_alias_free"):
+            del self._alias_free
+        self._extra_alias_free = getattr(self, "_extra_alias_free", set()) | {id(app.value.func.value)}
+        return [init, loop]
+
+    EXC_CLASSES = {
+        "ValueError": ["valueError", "unicodeError"], "UnicodeDecodeError": ["unicodeError"], "OverflowError": ["overflowError"],
+        "ZeroDivisionError": ["zeroDivision"], "ArithmeticError": ["overflowError", "zeroDivision"],
+        "LookupError": ["keyError", "indexError"], "KeyError": ["keyError"], "IndexError": ["indexError"],
+        "RuntimeError": ["runtimeError", "notImplemented"], "NotImplementedError": ["notImplemented"], "TypeError": ["typeError"],
+        "InvalidPyodaDataError": ["invalidData"], "struct.error": ["structError"],
+    }
+
+    def do_try(self, st: ast.Try, rest: list, ctx: Ctx) -> list:
+        """`try: BODY except A: raise X(...) [from e]` / `except B: raise` — BODY must end every path in return / raise (nothing
+        runs after the try statement); the handlers only translate the exception: the FIRST handler whose classes contain the
+        exception BODY raised decides (subclasses as in Python: UnicodeDecodeError is a ValueError, KeyError/IndexError are
+        LookupErrors, NotImplementedError is a RuntimeError); an exception no handler names propagates unchanged, and so does
+        the out-of-domain marker.  State changes BODY made before raising are lost with the exception, as in every raise."""
+        if st.orelse or st.finalbody or not st.handlers:
+            self.bad(st, "try with else / finally / without handlers")
+        if getattr(self, "in_loop", False):
+            self.bad(st, "try inside a loop body")
+        handlers = []
+        for h in st.handlers:
+            if h.type is None:
+                self.bad(h, "bare except")
+            tnames = [ast.unparse(x) for x in (h.type.elts if isinstance(h.type, ast.Tuple) else [h.type])]
+            classes = []
+            for tn in tnames:
+                if tn not in self.EXC_CLASSES:
+                    self.bad(h, f"except {tn}")
+                classes += self.EXC_CLASSES[tn]
+            if len(h.body) != 1 or not isinstance(h.body[0], ast.Raise):
+                self.bad(h, "exception handler that is not a single raise")
+            r = h.body[0]
+            if r.exc is None:
+                target = None
+            else:
+                if r.cause is not None and not (isinstance(r.cause, ast.Name) and r.cause.id == h.name):
+                    self.bad(r, "raise … from something other than the caught exception")
+                e = r.exc
+                name = e.func.id if isinstance(e, ast.Call) and isinstance(e.func, ast.Name) else (e.id if isinstance(e, ast.Name) else None)
+                if name not in EXC_MAP:
+                    self.bad(r, f"raise of {ast.unparse(e)[:40]}")
+                if isinstance(e, ast.Call):
+                    for a_ in list(e.args) + [k_.value for k_ in e.keywords]:
+                        parts_ = [v_.value for v_ in a_.values if isinstance(v_, ast.FormattedValue)] if isinstance(a_, ast.JoinedStr) else [a_]
+                        for p_ in parts_:
+                            if any(isinstance(n_, (ast.Call, ast.Subscript, ast.BinOp, ast.NamedExpr)) for n_ in ast.walk(p_)):
+                                self.bad(r, "argument of the exception raised by a handler that could itself raise")
+                target = EXC_MAP[name]
+            handlers.append((classes, target))
+        body = self.block(list(st.body), ctx.copy())
+        if not self.ir_always_ends(body):
+            self.bad(st, "try whose body can fall through to the statements after it")
+        return [("try", body, handlers)]
+
+    def ir_always_ends(self, ir) -> bool:
+        if not ir:
+            return False
+        last = ir[-1]
+        k = last[0]
+        if k in ("ret", "tail", "raise", "try"):
+            return True
+        if k == "if":
+            return self.ir_always_ends(last[2]) and self.ir_always_ends(last[3])
+        if k == "optmatch":
+            return self.ir_always_ends(last[3]) and self.ir_always_ends(last[4])
+        if k == "optret":
+            return self.ir_always_ends(last[2])
+        return False
 
     def match_as_if(self, st: ast.Match, ctx: Ctx):
         """`match subject:` over integer literal patterns (`case 1:`, `case 2 | 4 | 6:`, `case _:`) is the chain
@@ -1291,6 +1959,10 @@ class FnTranslator:
             if isinstance(pat, ast.MatchValue) and isinstance(pat.value, ast.UnaryOp) and isinstance(pat.value.op, ast.USub) and isinstance(pat.value.operand, ast.Constant) \
                     and isinstance(pat.value.operand.value, int):
                 return [pat.value]
+            if isinstance(pat, ast.MatchValue) and isinstance(pat.value, ast.Attribute):
+                cv = self.const_of(pat.value, ctx)   # `case Cls.Inner.NAME:` — a class-level integer constant
+                if cv is not None and not isinstance(cv, bool):
+                    return [ast.copy_location(ast.Constant(value=cv), pat.value)]
             if isinstance(pat, ast.MatchOr):
                 r = []
                 for q in pat.patterns:
@@ -1336,9 +2008,8 @@ class FnTranslator:
                 self.bad(n, "assignment to the loop variable of a for loop")
         # uses of the loop variable after the loop would see a different value: forbid them
         body_nodes = set(id(n) for n in ast.walk(st))
-        for n in ast.walk(self.node):
-            if isinstance(n, ast.Name) and n.id == var and id(n) not in body_nodes and (n.lineno, n.col_offset) > (st.end_lineno, st.end_col_offset):
-                self.bad(n, "use of a for-loop variable after its loop")
+        for n in self.loads_after(var, st, body_nodes):
+            self.bad(n, "use of a for-loop variable after its loop")
         lo = it.args[0] if len(it.args) == 2 else ast.Constant(value=0)
         hi = it.args[-1]
         self.for_count = getattr(self, "for_count", 0) + 1
@@ -1356,6 +2027,29 @@ class FnTranslator:
             ast.fix_missing_locations(n)
         return init + [loop]
 
+    def loads_after(self, var: str, loop, body_nodes: set) -> list:
+        """reads of `var` that come after `loop` in the translated statements and could see the value the loop left in it: not
+        those inside a LATER loop / comprehension that binds `var` itself as its target (they read that binding)"""
+        found = []
+
+        def visit(n):
+            if isinstance(n, (ast.For, ast.comprehension)) and n is not loop and id(n) not in body_nodes \
+                    and any(isinstance(m, ast.Name) and m.id == var for m in ast.walk(n.target)):
+                visit(n.iter)   # the iterable is evaluated before the rebinding
+                return
+            if isinstance(n, (ast.ListComp, ast.SetComp, ast.DictComp, ast.GeneratorExp)) \
+                    and any(isinstance(m, ast.Name) and m.id == var for g in n.generators for m in ast.walk(g.target)):
+                for g in n.generators[:1]:
+                    visit(g.iter)
+                return
+            if isinstance(n, ast.Name) and n.id == var and isinstance(n.ctx, ast.Load) and id(n) not in body_nodes \
+                    and (n.lineno, n.col_offset) > (loop.end_lineno, loop.end_col_offset):
+                found.append(n)
+            for c in ast.iter_child_nodes(n):
+                visit(c)
+        visit(getattr(self, "scope", self.node))
+        return found
+
     def loop_continue(self, st, ctx: Ctx) -> list:
         lp = self.cur_loop
         for v, ty in lp["carried"]:
@@ -1363,7 +2057,7 @@ class FnTranslator:
                 self.bad(self.node, f"loop variable {v} changes its type inside the loop")
         t = self.t
         call = " ".join([self.ref(lp["name"])] + [n for n, _, _, _ in t.fun_params] + [lname(n) for n, _ in t.extra_params]
-                        + [lname(v) for v, _ in lp["free"]] + ["fuel'"] + [lname(v) for v, _ in lp["carried"]])
+                        + [lname(v) for v, _ in lp["free"]] + ["rest'" if lp.get("kind") == "forlist" else "fuel'"] + [lname(v) for v, _ in lp["carried"]])
         return [("tail", call, lp["type"])]
 
     def require_plain_truthiness(self, node, ty: str):
@@ -1382,6 +2076,31 @@ class FnTranslator:
                 if isinstance(st_, ast.FunctionDef) and st_.name in ("__bool__", "__len__"):
                     self.bad(node, f"truthiness of a {pyc}, whose class defines {st_.name}")
             todo.extend(self.src.class_bases(rel, cls))
+
+    def alias_free_uses(self) -> set:
+        """ids of the Name nodes of this function in positions that cannot create an alias of a mutable object: receiver of
+        a method call, argument of len(), subscripted value, the value of a `return`"""
+        if not hasattr(self, "_alias_free"):
+            ok = set()
+            for n in ast.walk(self.node):
+                if isinstance(n, ast.Call) and isinstance(n.func, ast.Attribute) and isinstance(n.func.value, ast.Name):
+                    ok.add(id(n.func.value))
+                if isinstance(n, ast.Call) and isinstance(n.func, ast.Name) and n.func.id == "len" and len(n.args) == 1 and isinstance(n.args[0], ast.Name):
+                    ok.add(id(n.args[0]))
+                if isinstance(n, ast.Subscript) and isinstance(n.value, ast.Name):
+                    ok.add(id(n.value))
+                if isinstance(n, ast.Compare):
+                    for op_, c_ in zip(n.ops, n.comparators):
+                        if isinstance(op_, (ast.In, ast.NotIn)) and isinstance(c_, ast.Name):
+                            ok.add(id(c_))   # `x in s`: a membership test of the current value
+                if isinstance(n, ast.For) and isinstance(n.iter, ast.Name):
+                    ok.add(id(n.iter))   # iterated over as the value it has when the loop starts (the body may not mutate it)
+                if isinstance(n, (ast.Return, ast.Yield)) and n.value is not None and (isinstance(n, ast.Return) or self.t.d.get("generator_step")):
+                    for m_ in ast.walk(n.value):   # the function (one step of the generator) ends here: nothing can be mutated afterwards
+                        if isinstance(m_, ast.Name):
+                            ok.add(id(m_))
+            self._alias_free = ok
+        return self._alias_free | getattr(self, "_extra_alias_free", set())
 
     def is_pure_simple(self, e) -> bool:
         """a name, literal or attribute chain on a name: evaluating it twice is evaluating it once"""
@@ -1434,9 +2153,9 @@ class FnTranslator:
                 tv = self.fresh("r")
                 return ir[:-1] + [("bind", tv, last[1], last[2]), ("ret", f"(some {tv}, {tup})", lp["type"])]
             return ir
-        if t.dstate and t.dstate["mode"] == "rw" and not getattr(self, "in_lambda", False):
-            # the function also returns the dict it may have stored into
-            sp = lname(t.dstate["param"])
+        if (t.dstate and t.dstate["mode"] == "rw" and not getattr(self, "in_lambda", False)) or self.ms_rw():
+            # the function also returns the dict it may have stored into / the final state of the object
+            sp = lname(t.dstate["param"]) if t.dstate else self.ms_param()
             last = ir[-1]
             if last[0] == "ret":
                 ir = ir[:-1] + [("ret", f"({last[1]}, {sp})", (last[2], "state"))]
@@ -1541,7 +2260,20 @@ class FnTranslator:
         if not isinstance(v, ast.Call):
             self.bad(st, "expression statement that is not a call")
         pre = []
+        h_ = self.g.helpers.get(ast.unparse(v.func))
+        if isinstance(h_, dict) and h_.get("noop"):
+            # a call the target list declares to have no effect for the declared argument types (`_check_not_null(x, "x")`
+            # of an object that is never None here); its arguments must be plain names / literals
+            for a_ in list(v.args) + [k_.value for k_ in v.keywords]:
+                if not (self.is_pure_simple(a_) or isinstance(a_, ast.JoinedStr)):
+                    self.bad(st, "argument of a no-op helper that is not a plain name / literal")
+            return []
+        mut = self.mutator_stmt(st, ctx, pre)
+        if mut is not None:
+            return mut
         kind, txt, ty = self.call(v, ctx, pre, want_raw=True)
+        if id(v) in self.state_calls:
+            return pre   # (result, state) was bound where the call stands; the result of a statement is dropped
         if kind != "raising":
             if id(v) in getattr(self, "pure_translated_calls", ()):
                 # a translated function has no side effects; one that cannot raise either has no effect as a statement
@@ -1551,6 +2283,50 @@ class FnTranslator:
         if ty != "Unit":
             self.bad(st, f"discarded result of type {ty}")
         return pre + [("bind", None, txt, ty)]
+
+    def mutator_stmt(self, st: ast.Expr, ctx: Ctx, pre: list):
+        """`x.extend(a)` on a fresh mutable local / `self.<attr>.append(a)` on a state attribute, where the type declares the
+        method as a mutator {"lean": f, "arg_types": [...]}: x (the state field) becomes `f x a`"""
+        v = st.value
+        if not (isinstance(v.func, ast.Attribute) and not v.keywords):
+            return None
+        recv = v.func.value
+        if isinstance(recv, ast.Name) and recv.id in ctx.vars:
+            ty = ctx.vars[recv.id]
+            mu = (self.type_cfg(ty) or {}).get("mutators", {}).get(v.func.attr)
+            if mu is None:
+                return None
+            if recv.id not in ctx.mutables:
+                self.bad(st, f"{recv.id}.{v.func.attr}(…): {recv.id} is not a fresh local object of this function (the caller would see the change)")
+            args = self.mutator_args(st, mu, v, ctx, pre)
+            ctx.bind(recv.id, ty)
+            ctx.mutables.add(recv.id)
+            return pre + [("let", lname(recv.id), " ".join([mu["lean"], lname(recv.id)] + args), ty)]
+        sf = self.ms_field(recv, ctx)
+        if sf is not None:
+            k_ = ctx.optknown.get(recv.attr)
+            cty_ = k_[2] if k_ is not None and k_[0] == "some" else sf[1]
+            mu = (self.type_cfg(cty_) or {}).get("mutators", {}).get(v.func.attr)
+            if mu is None:
+                return None
+            cur, cty = self.state_read(recv, sf, ctx, pre)
+            args = self.mutator_args(st, mu, v, ctx, pre)
+            tv = self.fresh("m")
+            pre.append(("let", tv, " ".join([mu["lean"], cur] + args), cty))
+            return pre + self.state_assign(st, recv, sf, (tv, cty), ctx)
+        return None
+
+    def mutator_args(self, st, mu, v, ctx, pre):
+        want = [parse_type(x) for x in mu.get("arg_types", [])]
+        if len(v.args) != len(want):
+            self.bad(st, f"mutator {v.func.attr}: arity")
+        args = []
+        for a, w in zip(v.args, want):
+            txt, ty = self.expr(a, ctx, pre)
+            if ty != w:
+                self.bad(st, f"mutator {v.func.attr}: argument of type {ty}, expected {w}")
+            args.append(self.paren(txt))
+        return args
 
     def do_assign(self, st, ctx: Ctx) -> list:
         pre = []
@@ -1572,6 +2348,35 @@ class FnTranslator:
             ctx.constructing[target.id] = ty
             ctx.vars.pop(target.id, None)
             return []
+        if isinstance(target, ast.Tuple) and isinstance(value, ast.Tuple) and len(value.elts) == len(target.elts) \
+                and any(self.ms_field(e, ctx) is not None for e in target.elts) and not isinstance(st, ast.AugAssign):
+            # `a, self.x = (v1, v2)`: every value is evaluated first (left to right), then the targets are assigned left to right
+            vals = []
+            out = []
+            for x in value.elts:
+                if isinstance(x, ast.Constant) and x.value is None:
+                    vals.append(("none", "None"))
+                    continue
+                pre_ = []
+                txt, ty = self.expr(x, ctx, pre_)
+                out.extend(pre_)
+                tv = self.fresh("tup")
+                out.append(("let", tv, txt, ty))
+                vals.append((tv, ty))
+            for tg_, (tv, ty) in zip(target.elts, vals):
+                sf = self.ms_field(tg_, ctx)
+                if sf is not None:
+                    out.extend(self.state_assign(st, tg_, sf, (tv, ty), ctx))
+                elif isinstance(tg_, ast.Name) and tg_.id not in ctx.constructing:
+                    if ty in ("None", "Erased", "Str"):
+                        self.bad(st, f"assignment of a value of type {ty}")
+                    if ty == "Prop":
+                        tv, ty = f"decide ({strip_parens(tv)})", "Bool"
+                    out.append(("let", lname(tg_.id), tv, ty))
+                    ctx.bind(tg_.id, ty)
+                else:
+                    self.bad(st, "tuple target element that is neither a name nor a state attribute")
+            return out
         if isinstance(target, ast.Tuple):
             names = []
             for e in target.elts:
@@ -1609,11 +2414,44 @@ class FnTranslator:
                 obj = target.value.id
                 sty = ctx.constructing[obj]
                 field = self.g.types[sty].get("attrs", {}).get(target.attr)
+                if field is None and target.attr in self.g.types[sty].get("ignore_attrs", []):
+                    # an attribute the state structure leaves out (a callable handed to the constructor: it is an abstract
+                    # callee of the methods); its value must be a plain name
+                    if not self.is_pure_simple(value):
+                        self.bad(st, f"value of the ignored attribute {target.attr} is not a plain name")
+                    return []
                 if field is None:
                     self.bad(st, f"assignment to unknown field {target.attr} of {sty}")
+                fr_ = self.fresh_object(value)
+                if fr_ is not None:
+                    # a fresh builtin container (`deque()`, `{}`) stored in a field of the new object
+                    ctx.fields[(obj, field)] = fr_[1]
+                    return [("let", self.field_var(obj, field), fr_[0], fr_[1])]
+                fty_ = parse_type(self.g.types[sty].get("field_types", {}).get(field, "Int"))
+                if isinstance(fty_, str) and fty_.startswith("?"):
+                    # an optional field: None -> none, a value of the inner type -> some
+                    if isinstance(value, ast.Constant) and value.value is None:
+                        kind, txt, ty = "pure", "none", fty_
+                    else:
+                        kind, txt, ty = self.value_for_bind(value, ctx, pre)
+                        if kind == "raising":
+                            tv_ = self.fresh()
+                            pre.append(("bind", tv_, txt, ty))
+                            kind, txt = "pure", tv_
+                        if ty == fty_[1:]:
+                            txt, ty = f"some {self.paren(txt)}", fty_
+                        elif ty == "None":
+                            txt, ty = "none", fty_
+                        elif ty != fty_:
+                            self.bad(st, f"value of type {ty} stored into the optional field {field}")
+                    ctx.fields[(obj, field)] = ty
+                    return pre + [("let", self.field_var(obj, field), f"({txt} : {self.g.lean_type(fty_)})", ty)]
                 kind, txt, ty = self.value_for_bind(value, ctx, pre)
                 ctx.fields[(obj, field)] = ty
                 return pre + [("bind" if kind == "raising" else "let", self.field_var(obj, field), txt, ty)]
+            sf = self.ms_field(target, ctx)
+            if sf is not None:
+                return self.state_assign(st, target, sf, value, ctx)
             self.bad(st, f"assignment to attribute {ast.unparse(target)}")
         st_ = self.t.dstate
         if isinstance(target, ast.Subscript) and st_ and ast.unparse(target.value) == st_["attr"] and not isinstance(st, ast.AugAssign):
@@ -1627,10 +2465,61 @@ class FnTranslator:
                 self.bad(st, f"dict store of a {vty} under a key of type {ity}")
             sp = lname(st_["param"])
             return pre + [("let", sp, f"Pyoda.Gen.PyDict.set {sp} {self.paren(idx)} {self.paren(val)}", parse_type(st_["type"]))]
+        if isinstance(target, ast.Subscript) and not isinstance(st, ast.AugAssign) and self.ms_field(target.value, ctx) is not None:
+            # `self.<attr>[k] = v` on a state attribute whose type declares "setitem": the field becomes the updated value
+            sf = self.ms_field(target.value, ctx)
+            cur, cty = self.state_read(target.value, sf, ctx, pre)
+            si = (self.type_cfg(cty) or {}).get("setitem")
+            if si is None:
+                self.bad(st, f"item store into the state attribute {target.value.attr} of type {cty}")
+            k, kty = self.expr(target.slice, ctx, pre)
+            v, vty = self.expr(value, ctx, pre)
+            if kty != parse_type(si["key"]) or vty != parse_type(si["val"]):
+                self.bad(st, f"item store of a {vty} under a key of type {kty}")
+            tv = self.fresh("m")
+            pre.append(("let", tv, f"{si['lean']} {cur} {self.paren(k)} {self.paren(v)}", cty))
+            return pre + self.state_assign(st, target.value, sf, (tv, cty), ctx)
+        if isinstance(target, ast.Name) and isinstance(value, ast.Call) and isinstance(value.func, ast.Attribute) and not value.keywords \
+                and not isinstance(st, ast.AugAssign) and self.ms_field(value.func.value, ctx) is not None:
+            # `x = self.<attr>.popleft()`: a declared mutator WITH a result ("returns"): `(x, new value) ← f current args`
+            sf = self.ms_field(value.func.value, ctx)
+            k_ = ctx.optknown.get(value.func.value.attr)
+            cty_ = k_[2] if k_ is not None and k_[0] == "some" else sf[1]
+            mu = (self.type_cfg(cty_) or {}).get("mutators", {}).get(value.func.attr)
+            if mu is not None and mu.get("returns"):
+                cur, cty = self.state_read(value.func.value, sf, ctx, pre)
+                args = self.mutator_args(st, mu, value, ctx, pre)
+                rty = parse_type(mu["returns"])
+                tv = self.fresh("m")
+                if target.id in ctx.constructing:
+                    self.bad(st, "rebinding the object under construction")
+                pre.append(("bind" if mu.get("raises") else "let", f"({lname(target.id)}, {tv})", " ".join([mu["lean"], cur] + args), (rty, cty)))
+                ctx.bind(target.id, rty)
+                return pre + self.state_assign(st, value.func.value, sf, (tv, cty), ctx)
+        if isinstance(target, ast.Subscript) and isinstance(target.value, ast.Name) and not isinstance(st, ast.AugAssign) \
+                and (self.type_cfg(ctx.vars.get(target.value.id)) or {}).get("setitem"):
+            # `x[k] = v` on a mutable local created in this function: x is rebound to the updated value
+            nm = target.value.id
+            si = self.type_cfg(ctx.vars[nm])["setitem"]
+            if nm not in ctx.mutables:
+                self.bad(st, f"item store into {nm}, which is not a fresh local object of this function")
+            k, kty = self.expr(target.slice, ctx, pre)
+            v, vty = self.expr(value, ctx, pre)
+            if kty != parse_type(si["key"]) or vty != parse_type(si["val"]):
+                self.bad(st, f"item store of a {vty} under a key of type {kty}")
+            ty = ctx.vars[nm]
+            ctx.bind(nm, ty)
+            ctx.mutables.add(nm)
+            return pre + [("let", lname(nm), f"{si['lean']} {lname(nm)} {self.paren(k)} {self.paren(v)}", ty)]
         if not isinstance(target, ast.Name):
             self.bad(st, f"assignment target {type(target).__name__}")
         if target.id in ctx.constructing:
             self.bad(st, "rebinding the object under construction")
+        fr = self.fresh_object(value)
+        if fr is not None and not isinstance(st, ast.AugAssign):
+            ctx.bind(target.id, fr[1])
+            ctx.mutables.add(target.id)
+            return [("let", lname(target.id), fr[0], fr[1])]
         kind, txt, ty = self.value_for_bind(value, ctx, pre)
         if ty in ("None", "Erased", "Str"):
             self.bad(st, f"assignment of a value of type {ty}")
@@ -1655,12 +2544,22 @@ class FnTranslator:
             return ast.copy_location(ast.Attribute(value=target.value, attr=target.attr, ctx=ast.Load()), target)
         self.bad(target, "augmented assignment target")
 
+    def fresh_object(self, v):
+        """`bytearray()`, `{}`, `[]` …: a declared type whose "fresh" table lists this expression text -> (lean text, type)"""
+        if isinstance(v, (ast.Call, ast.Dict, ast.List)):
+            txt = ast.unparse(v)
+            for ty, cfg in self.g.types.items():
+                if txt in cfg.get("fresh", {}):
+                    return cfg["fresh"][txt], ty
+        return None
+
     def is_new_object(self, v) -> bool:
         return isinstance(v, ast.Call) and ast.unparse(v) in ("super().__new__(cls)", "object.__new__(cls)", "cls.__new__(cls)")
 
     def own_struct(self):
-        if self.t.cls and self.t.cls in self.g.class_of_type:
-            return self.g.class_of_type[self.t.cls]
+        name = self.t.cls.split(".")[-1] if self.t.cls else None
+        if name and name in self.g.class_of_type:
+            return self.g.class_of_type[name]
         return None
 
     # ---- static decisions --------------------------------------------------------------------
@@ -1709,13 +2608,43 @@ class FnTranslator:
             l, r = e.left, e.comparators[0]
             if isinstance(r, ast.Constant) and r.value is None:
                 ty = self.type_of_simple(l, ctx)
+                if ty is None and isinstance(l, ast.Attribute) and isinstance(l.value, ast.Name) and l.value.id in ctx.vars:
+                    # `x.attr is None` where the declared type of x fixes the attribute ("static_attrs": attr -> "none" | "object"),
+                    # e.g. a naive / an aware datetime
+                    sa = (self.type_cfg(ctx.vars[l.value.id]) or {}).get("static_attrs", {}).get(l.attr)
+                    if sa in ("none", "object"):
+                        ty = "None" if sa == "none" else "Object"
+                if ty is None:
+                    try:
+                        saved_ = self.tmp
+                        ty = self.expr(l, ctx.copy(), [], cond=True)[1]
+                        self.tmp = saved_
+                    except Unsupported:
+                        ty = None
+                    if not (isinstance(ty, str) and ty.startswith("?")):
+                        ty = None
                 if ty is None:
                     self.bad(e, "`is None` test of an expression whose type is not declared")
+                if isinstance(ty, str) and ty.startswith("?"):
+                    return None  # a run-time optional
                 isnone = ty == "None"
                 return isnone if isinstance(e.ops[0], ast.Is) else not isnone
             if self.enum_identity(l, r):
                 return None  # decided at run time: identity of enum members is equality of their values
             self.bad(e, "`is` comparison")
+        if isinstance(e, ast.Attribute) and self.type_of_simple(e, ctx) == "None":
+            return False   # an attribute this specialisation fixes to None (self_attrs "none"): falsy
+        if isinstance(e, ast.Name) and e.id in ctx.vars and e.id not in ctx.defaults:
+            # truthiness of a parameter `x: T | None` in a specialisation: None is falsy; an object whose class defines neither
+            # __bool__ nor __len__ is truthy
+            ty = ctx.vars[e.id]
+            if ty == "None":
+                return False
+            cfg = self.type_cfg(ty)
+            if cfg is not None and not cfg.get("truthy") and not cfg.get("list_of") and cfg.get("fields"):
+                self.require_plain_truthiness(e, ty)
+                return True
+            return None
         if isinstance(e, ast.UnaryOp) and isinstance(e.op, ast.Not):
             s = self.static(e.operand, ctx)
             return None if s is None else (not s)
@@ -1760,6 +2689,12 @@ class FnTranslator:
         return (declared(l) and enum_const(r)) or (declared(r) and enum_const(l))
 
     def type_of_simple(self, e, ctx: Ctx):
+        sf = self.ms_field(e, ctx)
+        if sf is not None:
+            k = ctx.optknown.get(e.attr)
+            if k is not None:
+                return "None" if k[0] == "none" else k[2]
+            return sf[1]
         if isinstance(e, ast.Attribute) and isinstance(e.value, ast.Name) and e.value.id in ("self", "cls") \
                 and ctx.vars.get(e.value.id, "Erased") == "Erased":
             v = self.t.self_attrs.get(e.attr)
@@ -1784,6 +2719,9 @@ class FnTranslator:
             return txt
         if ty == "Bool":
             return f"{txt} = true"
+        cfg = self.type_cfg(ty)
+        if cfg is not None and cfg.get("truthy") == "nonempty":
+            return f"{self.paren(txt)} ≠ []"   # bytes / list / dict: empty is falsy
         self.bad(e, f"test of a value of type {ty} (truthiness of non-bool)")
 
     def boolv(self, e, ctx, pre, cond=False) -> str:
@@ -1827,6 +2765,10 @@ class FnTranslator:
     def expr(self, e, ctx: Ctx, pre: list, cond=False):
         """-> (lean text, type).  `cond`: inside a conditionally evaluated position (no hoisting allowed)."""
         g = self.g
+        if ctx.known_exprs and isinstance(e, (ast.Attribute, ast.Call, ast.Subscript)):
+            k_ = ctx.known_exprs.get(ast.unparse(e))
+            if k_ is not None:
+                return k_   # an Optional-valued expression this path has already matched: its (non-None) value
         if isinstance(e, ast.Constant):
             if isinstance(e.value, bool):
                 return ("true" if e.value else "false"), "Bool"
@@ -1852,6 +2794,8 @@ class FnTranslator:
                 ty = ctx.vars[e.id]
                 if ty in ("None", "Erased", "Str"):
                     self.bad(e, f"use of {e.id} (type {ty}) as a value")
+                if e.id in ctx.mutables and id(e) not in self.alias_free_uses():
+                    self.bad(e, f"use of the mutable object {e.id} where an alias could arise (only x.method(…), len(x), x[k], `return x`)")
                 return lname(e.id), ty
             if e.id in self.assigned_names:
                 self.bad(e, f"read of local {e.id} before any assignment on this path")
@@ -1950,6 +2894,17 @@ class FnTranslator:
             tv = self.fresh("e")
             pre.append(("bind", tv, f"Pyoda.Gen.pyListIndex {self.paren(vtxt)} {self.paren(idx)}", self.g.types[vt]["list_of"]))
             return tv, self.g.types[vt]["list_of"]
+        if vt in self.g.types and self.g.types[vt].get("getitem"):
+            # `x[i]` on a bytes / list value: the declared lookup (IndexError outside, negative indices from the end)
+            gi = self.g.types[vt]["getitem"]
+            pre2 = []
+            vtxt, vt = self.expr(e.value, ctx, pre2, cond)
+            pre.extend(pre2)
+            idx, ty = self.expr(e.slice, ctx, pre, cond)
+            if ty != "Int":
+                self.bad(e, "index that is not an int")
+            r = self.deliver(e, f"{gi['lean']} {self.paren(vtxt)} {self.paren(idx)}", parse_type(gi["ret"]), bool(gi.get("raises", True)), pre, cond, False)
+            return r[1], r[2]
         st_ = self.t.dstate
         if st_ and ast.unparse(e.value) == st_["attr"]:
             # a lookup in the dict attribute carried as a parameter: KeyError for a missing key
@@ -2013,6 +2968,29 @@ class FnTranslator:
     def attribute(self, e: ast.Attribute, ctx: Ctx, pre, cond):
         g = self.g
         base = e.value
+        sf = self.ms_field(e, ctx)
+        if sf is not None:
+            return self.state_read(e, sf, ctx, pre)
+        if ast.unparse(e) in self.t.binds and isinstance(base, ast.Name) and ctx.vars.get(base.id) == "Erased" and base.id not in ("self", "cls"):
+            # a property of the state object handed in as a parameter (`reader.has_more_data`), bound by the target list
+            return self.bound_property(e, ast.unparse(e), ctx, pre, cond)
+        hv0 = g.helpers.get(ast.unparse(e))
+        if isinstance(hv0, dict) and not hv0.get("py_params") and not hv0.get("noreturn"):
+            root = e
+            while isinstance(root, ast.Attribute):
+                root = root.value
+            if isinstance(root, ast.Name) and (root.id not in ctx.vars or ctx.vars[root.id] == "Erased") and root.id not in ctx.constructing:
+                # a hand-mapped class-level value written as a dotted path (`Cls.Inner.NAME`, `self.Inner.NAME`)
+                return self.helper_call(e, hv0, [], {}, ctx, pre, cond, want_raw=False)[1:]
+        if isinstance(base, ast.Attribute):
+            root = base
+            while isinstance(root, ast.Attribute):
+                root = root.value
+            if isinstance(root, ast.Name) and root.id not in ctx.constructing and (root.id not in ctx.vars or (root.id in ("self", "cls") and ctx.vars[root.id] == "Erased")):
+                v = self.const_of(e, ctx)   # `Outer.Inner.NAME`: a constant of a nested class
+                if v is not None:
+                    self.record_const(e, v)
+                    return self.lit(v), ("Bool" if isinstance(v, bool) else "Int")
         # field of the object under construction
         if isinstance(base, ast.Name) and base.id in ctx.constructing:
             sty = ctx.constructing[base.id]
@@ -2172,6 +3150,11 @@ class FnTranslator:
         s = self.static(e, ctx)
         if s is not None:
             return ("True" if s else "False"), "Prop"
+        if len(e.ops) == 1 and isinstance(e.ops[0], (ast.Is, ast.IsNot)) and isinstance(e.comparators[0], ast.Constant) and e.comparators[0].value is None:
+            a, ta = self.expr(e.left, ctx, pre, cond)
+            if not (isinstance(ta, str) and ta.startswith("?")):
+                self.bad(e, f"`is None` on a value of type {ta}")
+            return f"{self.paren(a)}.{'isNone' if isinstance(e.ops[0], ast.Is) else 'isSome'} = true", "Prop"
         operands = [e.left] + list(e.comparators)
         vals = []
         for i, x in enumerate(operands):
@@ -2330,6 +3313,10 @@ class FnTranslator:
             args, kw = self.helper_args(e, g.helpers[dotted], 0, ctx, pre, cond)
             return self.helper_call(e, g.helpers[dotted], args, kw, ctx, pre, cond, want_raw)
         if isinstance(f, ast.Name):
+            if f.id == "bytes" and len(e.args) == 1 and not e.keywords and isinstance(e.args[0], ast.List) and len(e.args[0].elts) == 1 \
+                    and not isinstance(e.args[0].elts[0], ast.Starred) and "bytes([x])" in g.helpers and "bytes" not in self.local_names:
+                # `bytes([x])`: the one-byte value (ValueError outside range(256)) — the declared helper "bytes([x])"
+                return self.helper_call(e, g.helpers["bytes([x])"], [self.expr(e.args[0].elts[0], ctx, pre, cond)], {}, ctx, pre, cond, want_raw)
             if f.id in ("min", "max") and len(e.args) == 2 and not e.keywords:
                 (a, ta), (b, tb) = self.expr(e.args[0], ctx, pre, cond), self.expr(e.args[1], ctx, pre, cond)
                 if ta != "Int" or tb != "Int":
@@ -2344,6 +3331,8 @@ class FnTranslator:
                 a, ta = self.expr(e.args[0], ctx, pre, cond)
                 if ta in g.types and g.types[ta].get("list_of"):
                     return "pure", f"(({self.paren(a)}.size : Nat) : Int)", "Int"   # a Python list: its length
+                if ta in g.types and g.types[ta].get("len"):
+                    return "pure", f"({g.types[ta]['len']} {self.paren(a)})", "Int"  # bytes / list / dict: the builtin length
                 if ta not in g.types:
                     self.bad(e, f"len() of a value of type {ta}")
                 txt, ty = self.operator_call(e, ta, "__len__", [(a, ta)], ctx, pre, cond)
@@ -2369,6 +3358,28 @@ class FnTranslator:
             if tg:
                 return self.finish_call(e, tg, e.args, e.keywords, ctx, pre, cond, want_raw)
             r = g.src.lookup_global(self.file, f.id, self.local_imports)
+            if r and r[0] == "class" and len(e.args) == 1 and not e.keywords and f.id not in self.local_names \
+                    and any(ast.unparse(b_).split(".")[-1] == "IntEnum" for b_ in r[2].bases):
+                # `SomeIntEnum(x)`: the member whose value is x (as an int it IS x); ValueError when no member has that value
+                vals = []
+                for st_ in r[2].body:
+                    if isinstance(st_, (ast.Assign, ast.AnnAssign)) and getattr(st_, "value", None) is not None:
+                        tg_ = st_.targets[0] if isinstance(st_, ast.Assign) else st_.target
+                        if isinstance(tg_, ast.Name) and not tg_.id.startswith("_"):
+                            try:
+                                v_ = g.ce.eval(st_.value, r[1], r[2])
+                            except ValueError:
+                                self.bad(e, f"member {tg_.id} of the IntEnum {f.id} is not an integer constant")
+                            if isinstance(v_, bool) or not isinstance(v_, int):
+                                self.bad(e, f"member {tg_.id} of the IntEnum {f.id} is not an integer constant")
+                            vals.append(v_)
+                    elif isinstance(st_, (ast.FunctionDef, ast.ClassDef)):
+                        self.bad(e, f"IntEnum {f.id} with methods / nested classes")
+                a_, ta_ = self.expr(e.args[0], ctx, pre, cond)
+                if ta_ != "Int":
+                    self.bad(e, f"{f.id}(…) of a value of type {ta_}")
+                lit_ = "[" + ", ".join(str(v_) for v_ in vals) + "]"
+                return self.deliver(e, f"Pyoda.Gen.pyEnumLookup {lit_} {self.paren(a_)}", "Int", True, pre, cond, want_raw)
             if r and r[0] == "class":
                 tg = self.find_targets(r[2].name, "__init__", search_bases=False)
                 if tg:  # ClassName(args): the translated __init__ builds the structure
@@ -2482,6 +3493,8 @@ class FnTranslator:
     def arg_or_str(self, a, ctx, pre, cond):
         if isinstance(a, ast.Constant) and isinstance(a.value, str):
             return ("", "Str")
+        if isinstance(a, ast.Constant) and a.value is None:
+            return ("none", "None")   # an explicit None argument (`dt.replace(tzinfo=None)`): selects the helper alternative
         if isinstance(a, ast.JoinedStr):
             return ("", "Str")
         if isinstance(a, ast.Name) and ctx.vars.get(a.id) == "Str":
@@ -2498,7 +3511,11 @@ class FnTranslator:
                 bound_ = dict(zip(alt["py_params"], args))
                 bound_.update(kw)
                 wt = alt.get("arg_types", {})
-                if len(args) <= len(alt["py_params"]) and all(p_ in bound_ and (bound_[p_][1] == parse_type(wt.get(p_, "Int"))
+                if len(args) <= len(alt["py_params"]) and all(k_ in alt["py_params"] for k_ in kw) \
+                        and all(n_ in alt["pass"] or bound_[n_][1] == "Str" or n_ in alt.get("ignore", []) for n_ in bound_) \
+                        and all(r_ in bound_ for r_ in alt.get("require", [])) \
+                        and all(bound_[n_][1] == parse_type(wt[n_]) for n_ in alt.get("ignore", []) if n_ in bound_ and n_ in wt) \
+                        and all(p_ in bound_ and (bound_[p_][1] == parse_type(wt.get(p_, "Int"))
                                                                                  or (bound_[p_][1] == "Prop" and wt.get(p_) == "Bool")) for p_ in alt["pass"]):
                     fits.append(alt)
             if len(fits) != 1:
@@ -2524,8 +3541,18 @@ class FnTranslator:
             if ty != wt:
                 self.bad(e, f"helper argument {p} has type {ty}, expected {wt}")
             passed.append(txt)
-        txt = " ".join([h["lean"]] + [self.paren(p) for p in passed])
         ty = parse_type(h["ret"])
+        if h.get("state"):
+            # a hand-mapped operation on the object state (a stream read/write): `f st args`, returning (result, state) when "rw"
+            if not self.t.mstate:
+                self.bad(e, "state helper called from a function without an object state")
+            txt = " ".join([h["lean"], self.ms_param()] + [self.paren(p) for p in passed])
+            if h["state"] == "rw":
+                if not self.ms_rw():
+                    self.bad(e, "state-changing helper called from a function that only reads the state")
+                return self.deliver_state(e, txt, ty, bool(h.get("raises")), ctx, pre, cond, writes=(set(h["writes"]) if "writes" in h else None))
+            return self.deliver(e, txt, ty, bool(h.get("raises")), pre, cond, want_raw)
+        txt = " ".join([h["lean"]] + [self.paren(p) for p in passed])
         return self.deliver(e, txt, ty, bool(h.get("raises")), pre, cond, want_raw)
 
     def paren(self, s: str) -> str:
@@ -2562,6 +3589,13 @@ class FnTranslator:
             receiver = args[0]
             args = []
         provided_kw = [k.arg for k in keywords] if keywords else []
+        mine_py = (self.t.mstate or {}).get("py_param")
+        state_arg_pos = None
+        for j_, a_ in enumerate(args):
+            if isinstance(a_, ast.Name) and mine_py is not None and a_.id == mine_py:
+                state_arg_pos = j_   # the state object itself, handed on to a callee that works on the same object
+        if state_arg_pos is not None:
+            args = [a_ for j_, a_ in enumerate(args) if j_ != state_arg_pos]
         # evaluate the arguments once, in source order (this may hoist raising calls), then pick the overload
         pos_vals = [self.arg_or_str(a, ctx, pre, cond) for a in args] + (list(extra) if extra else [])
         kw_vals = {k.arg: self.arg_or_str(k.value, ctx, pre, cond) for k in (keywords or [])}
@@ -2574,6 +3608,13 @@ class FnTranslator:
             pyp = list(c.pyparams)
             if c.kind in ("method", "property", "class"):
                 pyp = pyp[1:]
+            c_py = (c.mstate or {}).get("py_param")
+            c_pos = pyp.index(c_py) if c_py is not None and c_py in pyp else None
+            if c_pos != state_arg_pos:
+                why.append(f"{c.lean_name}: the state object is not passed where this specialisation expects it")
+                continue
+            if c_pos is not None:
+                pyp = [x for x in pyp if x != c_py]
             npos = len(pos_vals)
             if npos > len(pyp):
                 why.append(f"{c.lean_name}: too many positional arguments")
@@ -2627,6 +3668,8 @@ class FnTranslator:
         if c.kind in ("method", "property", "class"):
             recv_name = pyp[0]
             pyp = pyp[1:]
+        if (c.mstate or {}).get("py_param") in pyp:
+            pyp = [x for x in pyp if x != c.mstate["py_param"]]
         vals = dict(zip(pyp, pos_vals))
         vals.update(kw_vals)
         out = []
@@ -2693,7 +3736,20 @@ class FnTranslator:
             if c.dstate["mode"] == "rw":
                 self.bad(e, f"call of {c.lean_name}, which stores into {c.dstate['attr']} (threading a stored-into dict through a call is not supported)")
             fargs.append(lname(mine["param"]))
+        c_rw = False
+        if c.mstate:
+            mine = self.t.mstate
+            if not mine or mine["type"] != c.mstate["type"]:
+                self.bad(e, f"{c.lean_name} works on an object state of type {c.mstate['type']}, which {self.t.lean_name} does not carry")
+            if receiver is not None:
+                self.bad(e, f"call of {c.lean_name} (object state) on a value")
+            c_rw = c.mstate.get("mode", "rw") == "rw"
+            if c_rw and not self.ms_rw():
+                self.bad(e, f"call of {c.lean_name}, which changes the object state, from a function that only reads it")
+            fargs.append(self.ms_param())
         txt = " ".join([self.ref(c.lean_name)] + fargs + [self.paren(x) for x in out])
+        if c_rw:
+            return self.deliver_state(e, txt, c.ret, c.raises, ctx, pre, cond, writes=set(c.ms_writes))
         if not c.raises:
             if not hasattr(self, "pure_translated_calls"):
                 self.pure_translated_calls = set()
@@ -2726,6 +3782,8 @@ class Emitter:
             spec.append("calls bound: " + ", ".join(f"{k} = {v}" for k, v in sorted(t.binds.items())))
         if t.fun_params:
             spec.append("abstract callees: " + ", ".join(f"{n} = {d}" for n, _, _, d in t.fun_params))
+        if t.mstate:
+            spec.append(f"object state = parameter {t.mstate['param']} ({'returned with the result' if t.mstate.get('mode', 'rw') == 'rw' else 'read only'})")
         if t.dstate:
             spec.append(f"dict attribute {t.dstate['attr']} = parameter {t.dstate['param']} ({'read and stored into; returned with the result' if t.dstate['mode'] == 'rw' else 'read only'})")
         doc = [f"/-- `{where}`" + (f" ({'; '.join(spec)})" if spec else "")]
@@ -2737,10 +3795,14 @@ class Emitter:
         eps = " ".join(f"({lname(n)} : {self.g.lean_type(ty)})" for n, ty in t.extra_params)
         if t.dstate:
             eps = (eps + " " if eps else "") + f"({lname(t.dstate['param'])} : {self.g.lean_type(parse_type(t.dstate['type']))})"
+        if t.mstate:
+            eps = (eps + " " if eps else "") + f"({lname(t.mstate['param'])} : {self.g.lean_type(t.mstate['type'])})"
         params = (fps + " " if fps else "") + (eps + " " if eps else "") + " ".join(f"({lname(n)} : {self.g.lean_type(ty)})" for n, ty in t.lean_params())
         rty = self.g.lean_type(t.ret)
         if t.dstate and t.dstate["mode"] == "rw":
             rty = f"({rty} × {self.g.lean_type(parse_type(t.dstate['type']))})"
+        if t.mstate and t.mstate.get("mode", "rw") == "rw":
+            rty = f"({rty} × {self.g.lean_type(t.mstate['type'])})"
         if t.raises:
             head = f"def {t.lean_name} {params} : R {rty} := do".replace("  ", " ")
         else:
@@ -2770,6 +3832,14 @@ class Emitter:
             rty = cty[0] if len(cty) == 1 else "(" + " × ".join(cty) + ")"
             if lp.get("early"):  # (what the body returned, if it did) × (the loop variables)
                 rty = f"(Option {self.g.lean_type(t.ret)} × {rty})"
+            if lp.get("kind") == "forlist":
+                out.append(f"/-- loop {lp['index']} of `{t.file}: {(t.cls + '.') if t.cls else ''}{t.function}`: `for … in <list>` as recursion on the list -/")
+                out.append(f"{head} : List {self.g.lean_type(lp['elem'])} → {' → '.join(cty)} → R {rty}")
+                out.append(f"  | [], {', '.join(lname(n) for n, _ in lp['carried'])} => .ok {lname(lp['carried'][0][0]) if len(cty) == 1 else '(' + ', '.join(lname(n) for n, _ in lp['carried']) + ')'}")
+                out.append(f"  | {lp['pattern']} :: rest', {', '.join(lname(n) for n, _ in lp['carried'])} => do")
+                out += self.block(lp["ir"], 2, True)
+                out.append("")
+                continue
             out.append(f"/-- loop {lp['index']} of `{t.file}: {(t.cls + '.') if t.cls else ''}{t.function}`: `while` as recursion on the fuel;")
             out.append("    out of fuel = outside the modelled domain (`decimalDomain`, reply `!dom`) -/")
             out.append(f"{head} : Nat → {' → '.join(cty)} → R {rty}")
@@ -2811,9 +3881,15 @@ class Emitter:
                 out += self.block(n[4], ind + 1, monadic)
             elif k == "optret":
                 out.append(f"{pad}match {n[1]} with")
-                out.append(f"{pad}| some v' => .ok v'")
+                okv = n[3] if len(n) > 3 else "v'"
+                out.append(f"{pad}| some v' => .ok {okv}")
                 out.append(f"{pad}| none =>")
                 out += self.block(n[2], ind + 1, monadic)
+            elif k == "try":
+                hs = ", ".join("([" + ", ".join("." + c for c in cl) + "], " + ("some ." + tg if tg else "none") + ")" for cl, tg in n[2])
+                out.append(f"{pad}Pyoda.Gen.pyTry [{hs}] (do")
+                out += self.block(n[1], ind + 2, True)
+                out.append(f"{pad}  )")
             elif k == "ret":
                 out.append(f"{pad}.ok {self.paren(n[1])}" if monadic else f"{pad}{n[1]}")
             elif k == "tail":
